@@ -55,3 +55,22 @@ Definition ensure_stack (fixed : bool) (top n len : Z) : ensured :=
     | None => OutOfStack
     end
   else Enough len.
+
+(** Non-tail recursion of depth [k]: the VM runs the stack check of make_call (vm.c:1409
+    [sexp_ensure_stack(max_depth(callee)+64)]) once per pending call, the j-th one at stack top
+    [top + j*per] ([per] = slots one pending call keeps: its arguments + the 4 header slots + what the
+    caller left on its operand stack), always asking for [n] more slots; the stack length is threaded
+    through.  State = (top of the next check, outcome so far); once a check has failed the error
+    object is returned through all frames (vm.c:1046 goto end_loop) and nothing changes any more. *)
+Definition deep_step (per n : Z) (st : Z * ensured) : Z * ensured :=
+  match snd st with
+  | OutOfStack => st
+  | Enough len => ((fst st + per)%Z, ensure_stack true (fst st) n len)
+  end.
+
+Definition deep_calls (k : nat) (top per n len : Z) : ensured :=
+  snd (Nat.iter k (deep_step per n) (top, Enough len)).
+
+(** the same with the depth in binary (the extracted driver is asked about depths of millions) *)
+Definition deep_outcome (k : Z) (top per n len : Z) : ensured :=
+  snd (Z.iter k (deep_step per n) (top, Enough len)).
